@@ -463,6 +463,9 @@ func (f *Frame) applyContract(ct *FuncContract, fn *ssa.Function, args []Val, c 
 			vc.regComp(comp, "(Array Int Int)")
 			if il.param < len(args) && (f.safety || f.contract != nil) {
 				conj = append(conj, fmt.Sprintf("(= (select %s %s) 0)", vc.get(f.cur, comp), args[il.param].T))
+				if noLockIfCaller(ct, env) == "false" {
+					f.lockOrderCheck(il.structT, il.field, args[il.param].T, pos)
+				}
 			}
 		}
 		if len(conj) > 0 {
@@ -1547,6 +1550,7 @@ func (f *Frame) lockOp(op lockOp, lockVal ssa.Value, pos token.Pos) {
 			f.noLockIfCallee(pos)
 			lbl := f.label("lock", field+":"+opname+":not-held")
 			f.assertObl("lock", lbl, nil, f.guard, eq(held, "0"), f.p.posString(pos))
+			f.lockOrderCheck(st, field, base, pos)
 		}
 		vc.assumeG(f.guard, eq(held, "0"))
 		nv := "1"
